@@ -158,7 +158,7 @@ def judge_solution(spec, scale, pr, res, out, sig, check_closure=True):
 
 
 def labels_of(spec, out):
-    out.label('rank=%d' % len(spec['types']), 'method=' + spec.get('method', 'krylov'))
+    out.label('rank=%d' % len(spec['types']), 'method=' + spec.get('method', 'krylov'), 'assign=' + spec.get('assign', 'pair-by-pair'))
     for v in spec['closure'].values():
         out.label('closure=' + v[0] + ('+hc' if v[1] else ''))
     for v in spec['potential'].values():
